@@ -109,10 +109,59 @@ def run_translator():
     return p.returncode, p.stdout + p.stderr
 
 
-def lake_build(targets, timeout=3000):
-    env = dict(os.environ)
-    p = subprocess.run(["lake", "build"] + targets, cwd=LEAN, capture_output=True, text=True, timeout=timeout, env=env)
-    return p.returncode, p.stdout + p.stderr
+BUILD_TIMEOUT_S = int(os.environ.get("VERIF_BUILD_TIMEOUT", "600"))
+BUILD_MEM_KB = int(os.environ.get("VERIF_BUILD_MEM_GB", "24")) * (1 << 20)
+
+
+def _session_rss_kb(sid):
+    total = 0
+    for d in os.listdir("/proc"):
+        if not d.isdigit():
+            continue
+        try:
+            if os.getsid(int(d)) != sid:
+                continue
+            with open("/proc/%s/status" % d) as f:
+                for line in f:
+                    if line.startswith("VmRSS:"):
+                        total += int(line.split()[1])
+                        break
+        except (OSError, ValueError):
+            pass
+    return total
+
+
+def lake_build(targets, timeout=None):
+    """`lake build` under a wall-clock limit and a resident-memory watchdog: a kernel `decide` over a table that no
+    longer satisfies its obligation can otherwise run for very long and take tens of GB (Lean re-evaluates a failing
+    `decide` with the elaborator to print the reason).  A stopped build counts as a build that did not succeed."""
+    import signal, threading
+    timeout = timeout or BUILD_TIMEOUT_S
+    p = subprocess.Popen(["lake", "build"] + targets, cwd=LEAN, stdout=subprocess.PIPE, stderr=subprocess.STDOUT, text=True,
+                         start_new_session=True)
+    chunks = []
+    t = threading.Thread(target=lambda: chunks.append(p.stdout.read()), daemon=True)
+    t.start()
+    t0 = time.time()
+    why = None
+    while p.poll() is None:
+        time.sleep(1.0)
+        if time.time() - t0 > timeout:
+            why = "exceeded %d s" % timeout
+        elif _session_rss_kb(p.pid) > BUILD_MEM_KB:
+            why = "exceeded %d GB of memory" % (BUILD_MEM_KB >> 20)
+        if why:
+            try:
+                os.killpg(p.pid, signal.SIGKILL)
+            except ProcessLookupError:
+                pass
+            break
+    p.wait()
+    t.join(timeout=5)
+    out = "".join(c or "" for c in chunks)
+    if why:
+        return 124, out + "\nerror: lake build of %s %s and was stopped (obligation not discharged)\n" % (targets, why)
+    return p.returncode, out
 
 
 def build_and_audit(pid, tier="quick"):
